@@ -47,6 +47,9 @@ TCancel ==
                 ELSE (IF ~e.ctxdone THEN {"CancelReachesContext"} ELSE {})
                      \cup (IF e.point \in {"blockedRecv", "blockedFirstRecv", "blockedSend"} /\ e.reached /\ ~(e.released /\ e.relerr /\ ~e.releof) THEN {"CancelReleases"} ELSE {})
                      \cup (IF e.donebefore THEN {"SpuriousDone"} ELSE {})
+                     \* a reply sent after the client's cancellation reached the handler is not reported as delivered (gRPC and
+                     \* gRPC-web clients that cancel; on a local handler - the forwarder's backend stream has its own rules)
+                     \cup (IF e.point = "idleAfterSend" /\ e.client = "grpc-cancel" /\ e.via = "local" /\ e.latesend = "nil" THEN {"SendAfterCancelFails"} ELSE {})
      IN /\ failed' = failed \cup {<<e.case, l, f>> : f \in bad}
         /\ stat' = [stat EXCEPT !.cancels = @ + 1, !.blocked = @ + (IF e.point \in {"blockedRecv", "blockedFirstRecv", "blockedSend"} /\ e.reached THEN 1 ELSE 0),
                                 !.proxied = @ + (IF e.via = "proxied" THEN 1 ELSE 0)]
